@@ -317,7 +317,9 @@ theorem createInstance_ne_runtimeError (A : Alg V) (w : DcW V) (args : Dict V) :
   split
   · split
     · simp
-    · simp
+    · split
+      · simp
+      · split <;> simp
     · split <;> simp
   · split <;> simp
 
@@ -539,5 +541,135 @@ theorem sortDesc_perm (l : List (DcW V)) : (sortDesc l).Perm l := by
 
 theorem rootDests_sortDesc_perm (l : List (DcW V)) : (rootDests (sortDesc l)).Perm (rootDests l) :=
   List.Perm.flatMap_right _ (sortDesc_perm l)
+
+/-! ### the `Optional[dataclass]` rule after fixes 3f531df / f635f07 (`_is_at_default`) -/
+
+def constructOut (A : Alg V) (w : DcW V) (args : Dict V) : Out V :=
+  match A.construct w.ctor args with
+  | some v => .ok v
+  | none => .raise .ctorError
+
+/-- `createInstance` with the `let` unfolded -/
+theorem createInstance_eq (A : Alg V) (w : DcW V) (args : Dict V) :
+    createInstance A w args =
+      if w.optNone then
+        match allAtDefault A args w.fields with
+        | none => .raise .keyError
+        | some true =>
+          if w.children.all (fun c => match dget args c.name with
+                                      | some x => c.atDefault A x
+                                      | none => true)
+          then .ok A.none else constructOut A w args
+        | some false => constructOut A w args
+      else constructOut A w args := by
+  rfl
+
+theorem createInstance_not_optNone (A : Alg V) (w : DcW V) (args : Dict V) (h : w.optNone = false) :
+    createInstance A w args = constructOut A w args := by
+  rw [createInstance_eq]; simp [h]
+
+theorem createInstance_field_changed (A : Alg V) (w : DcW V) (args : Dict V)
+    (h : allAtDefault A args w.fields = some false) :
+    createInstance A w args = constructOut A w args := by
+  rw [createInstance_eq, h]; split <;> rfl
+
+theorem createInstance_child_changed (A : Alg V) (w : DcW V) (args : Dict V)
+    (hf : allAtDefault A args w.fields = some true)
+    (c : ChildW V) (hc : c ∈ w.children) (x : V) (hx : dget args c.name = some x)
+    (hnd : c.atDefault A x = false) :
+    createInstance A w args = constructOut A w args := by
+  have hall : (w.children.all (fun c => match dget args c.name with
+                                        | some x => c.atDefault A x
+                                        | none => true)) = false := by
+    rw [List.all_eq_false]
+    exact ⟨c, hc, by simp [hx, hnd]⟩
+  rw [createInstance_eq, hf, hall]; split <;> simp
+
+theorem createInstance_all_default (A : Alg V) (w : DcW V) (args : Dict V) (ho : w.optNone = true)
+    (hf : allAtDefault A args w.fields = some true)
+    (hc : ∀ c ∈ w.children, ∀ x, dget args c.name = some x → c.atDefault A x = true) :
+    createInstance A w args = .ok A.none := by
+  have hall : (w.children.all (fun c => match dget args c.name with
+                                        | some x => c.atDefault A x
+                                        | none => true)) = true := by
+    rw [List.all_eq_true]
+    intro c hcm
+    cases hx : dget args c.name with
+    | none => rfl
+    | some x => simpa using hc c hcm x hx
+  rw [createInstance_eq, hf, hall]; simp [ho]
+
+theorem atDefault_false_of_field (A : Alg V) (n : Str) (fs : List (FieldW V)) (cs : List (ChildW V)) (v : V) (d : Dict V)
+    (hn : A.isNone v = false) (ha : A.attrs v = some d) (hfd : fieldsAtDefault A d fs = false) :
+    (ChildW.mk n fs cs).atDefault A v = false := by
+  simp [ChildW.atDefault, hn, ha, hfd]
+
+/-- a change anywhere below: the nested member of a nested member is not at default ⇒ neither is the nested member -/
+theorem atDefault_false_of_child (A : Alg V) (n : Str) (fs : List (FieldW V)) (cs : List (ChildW V)) (v : V) (d : Dict V)
+    (hn : A.isNone v = false) (ha : A.attrs v = some d) (hcd : ChildW.allAtDefault A d cs = false) :
+    (ChildW.mk n fs cs).atDefault A v = false := by
+  simp [ChildW.atDefault, hn, ha, hcd]
+
+def createInstanceOld (A : Alg V) (w : DcW V) (args : Dict V) : Out V :=
+  if w.optNone then
+    match allAtDefault A args w.fields with
+    | none => .raise .keyError
+    | some true => .ok A.none
+    | some false => constructOut A w args
+  else constructOut A w args
+
+/-- the rule before the fixes never looked at the nested members: whatever was built below, the member is dropped -/
+theorem createInstanceOld_ignores_children (A : Alg V) (w : DcW V) (args : Dict V) (ho : w.optNone = true)
+    (hf : allAtDefault A args w.fields = some true) :
+    createInstanceOld A w args = .ok A.none := by
+  simp [createInstanceOld, ho, hf]
+
+/-! a concrete instance of the hypotheses (non-vacuity) on a small value algebra whose `==` the kernel can evaluate
+    (`PVal`'s derived `BEq` is not kernel-reducible): `inner: Optional[Inner] = None`, `Inner{x = 2, deep: Deep}`,
+    `Deep{y = 1}`, command line `--y 15` -/
+
+inductive TV
+  | none
+  | num (n : Nat)
+  /-- an instance with one attribute -/
+  | inst1 (attr : Str) (v : TV)
+
+def TV.beq : TV → TV → Bool
+  | .none, .none => true
+  | .num a, .num b => a == b
+  | .inst1 n v, .inst1 m u => n == m && TV.beq v u
+  | _, _ => false
+
+def talg : Alg TV :=
+  { none := .none, dict := fun _ => .none, construct := fun _ _ => some (.inst1 [] .none), conv := fun _ v => v,
+    eq := TV.beq,
+    isNone := fun v => match v with | .none => true | _ => false,
+    attrs := fun v => match v with | .inst1 n u => some [(n, u)] | _ => Option.none }
+
+def fY : FieldW TV :=
+  { name := ['y'], dest := ['c', '.', 'i', '.', 'd', '.', 'y'], dests := [], isSubgroup := false, init := true,
+    dflt := .num 1, conv := .id }
+def cDeep : ChildW TV := .mk ['d'] [fY] []
+def wInner : DcW TV :=
+  { dest := ['c', '.', 'i'], dests := [['c', '.', 'i']], level := 1, hasParent := true, suppress := false,
+    optNone := true, ctor := ['I'],
+    fields := [{ name := ['x'], dest := ['c', '.', 'i', '.', 'x'], dests := [], isSubgroup := false, init := true,
+                 dflt := .num 2, conv := .id }],
+    children := [cDeep] }
+/-- `constructor_args["c.i"]` after `--y 15`: x at its default, deep built with y = 15 -/
+def wInnerArgs : Dict TV := [(['x'], .num 2), (['d'], .inst1 ['y'] (.num 15))]
+
+example : allAtDefault talg wInnerArgs wInner.fields = some true := by decide
+example : cDeep ∈ wInner.children := by simp [wInner]
+example : dget wInnerArgs cDeep.name = some (.inst1 ['y'] (.num 15)) := by rfl
+example : cDeep.atDefault talg (.inst1 ['y'] (.num 15)) = false := by decide
+/-- the repaired rule builds the member … -/
+example : createInstance talg wInner wInnerArgs = constructOut talg wInner wInnerArgs :=
+  createInstance_child_changed talg wInner wInnerArgs (by decide) cDeep (by simp [wInner]) (.inst1 ['y'] (.num 15)) (by rfl) (by decide)
+/-- … the old one dropped it -/
+example : createInstanceOld talg wInner wInnerArgs = .ok .none :=
+  createInstanceOld_ignores_children talg wInner wInnerArgs rfl (by decide)
+/-- and with `y` left at 1 the member stays `None` under the repaired rule too -/
+example : createInstance talg wInner [(['x'], .num 2), (['d'], .inst1 ['y'] (.num 1))] = .ok .none := by rfl
 
 end SpVerif.Post
